@@ -502,6 +502,10 @@ func (s *Server) Snapshot() (raft.FSMSnapshot, error) {
 	return &fsmSnapshot{&proto.MetadataSnapshot{
 		Streams: protoStreams,
 		Groups:  protoGroups,
+		// The index of the latest event published to the activity stream is
+		// replicated state (set by PUBLISH_ACTIVITY entries) and the entry that
+		// recorded it is compacted away with the snapshot.
+		LastPublishedRaftIndex: s.activity.LastPublishedRaftIndex(),
 	}}, nil
 }
 
@@ -547,6 +551,13 @@ func (s *Server) Restore(snapshot io.ReadCloser) error {
 		if err := s.applyCreateConsumerGroup(group, true); err != nil {
 			return err
 		}
+	}
+	// Resume publishing activity events behind the index recorded up to the
+	// snapshot instead of from the beginning of the Raft log, which may have
+	// been compacted. Snapshots written by older versions do not carry the
+	// index.
+	if index := snap.GetLastPublishedRaftIndex(); index > 0 {
+		s.activity.SetLastPublishedRaftIndex(index)
 	}
 	s.logger.Debugf("fsm: Finished restoring Raft state from snapshot, recovered %s",
 		english.Plural(len(snap.Streams), "stream", ""))
